@@ -69,6 +69,7 @@ def doc_stream(rng, tier, n_ast, n_mut, n_unwrap, n_junk, delims=None, ast_kw=No
 # ============================================================================================ C01
 class C01(Base):
     id = "C01"
+    shared_ops = ["clean", "list:json", "list:pretty", "list_all:json", "list_all:pretty"]
     rule = ("one case = one (source, delimiters, configuration) run through clean and the four list modes under catch_unwind "
             "(overflow checks on); bounded-exhaustive atom strings, random atom strings, G-ast/G-mut/G-unwrap documents; "
             "non-trivial = the implementation's token list contains at least one tag token")
@@ -128,6 +129,7 @@ class C01(Base):
 # ============================================================================================ C02 / C03
 class C02(Base):
     id = "C02"
+    shared_ops = ["clean"]
     spec_name = "C02C03"
     rule = ("one case = clean on one document; the Lean predicate Spec.c02c03Holds (output = input minus the ready extents minus "
             "some whitespace) is evaluated on the implementation's output; non-trivial = at least one ready extent")
@@ -330,6 +332,7 @@ def probe_doc(tag):
 
 class C05(Base):
     id = "C05"
+    shared_ops = ["clean"]
     rule = ("one case = one (`to` value, offset string, current instant): TimeLimitedEvaluator::is_removal directly and clean on a "
             "one-element probe document; expected decision from an independent calendar (Python datetime) for canonical values, "
             "`not ready` for the malformed classes; lenient spellings are compared with the model only; monotonicity pairs; "
@@ -425,6 +428,7 @@ def describe_src(line):
 # ============================================================================================ C06
 class C06(Base):
     id = "C06"
+    shared_ops = ["clean"]
     needs_cli = True
     rule = ("one case = one (tag, target set, tag-name configuration): MarkerEvaluator::is_removal and clean on a probe document; "
             "expected: removed iff the first `name` attribute has a value that is a member of the target set as a whole string, "
@@ -569,6 +573,7 @@ class C06(Base):
 # ============================================================================================ C07 / C08
 class C07(Base):
     id = "C07"
+    shared_ops = ["tokenize"]
     spec_name = "C07"
     exhaustive = True
     rule = ("one case = tokenize on one (string, delimiter pair), all six token fields compared with the model and the Lean predicate "
@@ -636,6 +641,7 @@ def well_delimited(src, ds, de):
 
 class C08(C07):
     id = "C08"
+    shared_ops = ["tokenize"]
     spec_name = "C08"
     pairs = [("<", ">"), ("<!-- <", "> -->"), ("/* <", "> */"), ("// --", "-- //"), ("aab", "bba"), ("[[", "]]"), ("%%", "%%"), ("«", "»"), ("<<", ">>")]
     rule = ("one case = tokenize on one (string, delimiter pair); kinds and values of the implementation's tokens compared with the "
@@ -811,6 +817,7 @@ def tree_tokens(s):
 
 class C10(Base):
     id = "C10"
+    shared_ops = ["tree"]
     exhaustive = True
     rule = ("one case = parser::parse on one token sequence (rendered tree with the byte offsets of every opener/closer/text token); "
             "compared with the model and with the stack machine Spec.stackParse; every token must appear exactly once in document order; "
